@@ -281,7 +281,19 @@ impl<'a> G<'a> {
                 0.1,
                 123456789012345680000.0
             ])),
-            _ => json!(self.r.next() as i64),
+            _ => {
+                if self.r.chance(50) {
+                    json!(self.r.next() as i64)
+                } else {
+                    // magnitudes where integer / float / exponent formatting or precision changes
+                    self.r.pick(&[
+                        json!(9_007_199_254_740_991u64), json!(9_007_199_254_740_992u64), json!(9_007_199_254_740_993u64), json!(-9_007_199_254_740_993i64),
+                        json!(9_223_372_036_854_775_807u64), json!(9_223_372_036_854_775_808u64), json!(123_456_789_012_345_678u64),
+                        json!(1e15), json!(1e16), json!(1e17), json!(1.0e21), json!(1e22), json!(1e-5), json!(1e-6), json!(1e-7), json!(5.0), json!(100.0), json!(-0.0),
+                        json!(4_294_967_295u64), json!(4_294_967_296u64), json!(2_147_483_648u64), json!(-2_147_483_649i64), json!(0.30000000000000004), json!(3.0e-310),
+                    ]).clone()
+                }
+            }
         }
     }
 
@@ -375,7 +387,39 @@ impl<'a> G<'a> {
             m.insert(name, v);
         }
         self.prefix_sibling(&mut m);
+        self.lookalike_sibling(&mut m);
         Value::Object(m)
+    }
+
+    /// Occasionally add a sibling whose name (or value) equals an existing one under some
+    /// normalisation — case, trailing blank, Unicode composition, numeric type — but not exactly.
+    fn lookalike_sibling(&mut self, m: &mut Map<String, Value>) {
+        if !self.r.chance(6) || m.is_empty() {
+            return;
+        }
+        let keys: Vec<String> = m.keys().cloned().collect();
+        let k = self.r.pick(&keys).clone();
+        let v = m.get(&k).cloned().unwrap_or(Value::Null);
+        let twin = match self.r.below(6) {
+            0 => k.to_uppercase(),
+            1 => k.to_lowercase(),
+            2 => format!("{k} "),
+            3 => format!(" {k}"),
+            4 => format!("{k}e\u{301}"),
+            _ => format!("{k}\u{e9}"),
+        };
+        let reserved = ["_sd", "...", "_sd_alg", "cnf", "aud", "sub", "nbf", "iss", "exp", "iat"].contains(&twin.trim());
+        if twin != k && !reserved && !m.contains_key(&twin) && !(self.cfg.safe_names && (twin.contains('.') || twin.contains('['))) {
+            let tv = match (&v, self.r.below(4)) {
+                (Value::Number(n), 0) if n.is_u64() => json!(n.as_u64().unwrap() as f64),
+                (Value::Number(n), 1) => json!(n.to_string()),
+                (Value::String(s), 0) => json!(format!("{s} ")),
+                (Value::Null, _) => json!("null"),
+                (Value::Bool(b), _) => json!(b.to_string()),
+                _ => v.clone(),
+            };
+            m.insert(twin, tv);
+        }
     }
 
     /// Occasionally add a sibling whose name is another sibling's name followed by the name of
@@ -514,6 +558,7 @@ pub fn gen_claims(r: &mut Rng, cfg: &GenCfg) -> Value {
         m.insert(k, v);
     }
     g.prefix_sibling(&mut m);
+    g.lookalike_sibling(&mut m);
     Value::Object(m)
 }
 
@@ -666,7 +711,8 @@ pub fn gen_strategy(r: &mut Rng, u: &Value, kind: StratKind) -> Strategy {
                 }
             }
             if r.chance(30) {
-                // paths that name no claim: no effect
+                // paths that name no claim: no effect (candidates that happen to name one are dropped below)
+                let keep = strs.len();
                 strs.push("$.nonexistent".into());
                 strs.push("$.nonexistent[3].x".into());
                 if let Some(p) = paths.iter().find(|p| p.len() == 1) {
@@ -687,6 +733,13 @@ pub fn gen_strategy(r: &mut Rng, u: &Value, kind: StratKind) -> Strategy {
                         }
                     }
                 }
+                let extras: Vec<String> = strs.split_off(keep);
+                for e in extras {
+                    let top_visible = ["$.iss", "$.exp", "$.iat"].contains(&e.as_str());
+                    if top_visible || !path_names_claim(u, &e) {
+                        strs.push(e);
+                    }
+                }
             }
             r.shuffle(&mut strs);
         }
@@ -695,6 +748,64 @@ pub fn gen_strategy(r: &mut Rng, u: &Value, kind: StratKind) -> Strategy {
         kind,
         paths: strs,
         sd,
+    }
+}
+
+/// Does `path` (as written for the Custom strategy) name a claim of `u`? Member names under
+/// Custom are free of '.' and '[', so a segment ends at the next '.' or '['; an index is a
+/// canonical decimal in brackets.
+pub fn path_names_claim(u: &Value, path: &str) -> bool {
+    let mut rest = match path.strip_prefix("$.") {
+        Some(r) => r,
+        None => return false,
+    };
+    let mut cur = u;
+    loop {
+        match cur {
+            Value::Object(m) => {
+                let end = rest.find(['.', '[']).unwrap_or(rest.len());
+                let key = &rest[..end];
+                match m.get(key) {
+                    None => return false,
+                    Some(v) => {
+                        cur = v;
+                        rest = &rest[end..];
+                    }
+                }
+            }
+            Value::Array(a) => {
+                if !rest.starts_with('[') {
+                    return false;
+                }
+                let close = match rest.find(']') {
+                    Some(c) => c,
+                    None => return false,
+                };
+                let digits = &rest[1..close];
+                let canonical = !digits.is_empty() && digits.bytes().all(|b| b.is_ascii_digit()) && (digits == "0" || !digits.starts_with('0'));
+                match (canonical, digits.parse::<usize>().ok().and_then(|i| a.get(i))) {
+                    (true, Some(v)) => {
+                        cur = v;
+                        rest = &rest[close + 1..];
+                    }
+                    _ => return false,
+                }
+            }
+            _ => return false,
+        }
+        if rest.is_empty() {
+            return true;
+        }
+        // separator before the next segment: ".name", ".[i]" or "[i]"
+        if let Some(r) = rest.strip_prefix('.') {
+            rest = r;
+            if rest.is_empty() {
+                // "$.a." names member "" of a
+                continue;
+            }
+        } else if !rest.starts_with('[') {
+            return false;
+        }
     }
 }
 
